@@ -87,4 +87,22 @@ def templates(tier="quick"):
         ops, b = _ops(v, ["top", "out.mod"])
         T.append(scenario("c14/dyndep/" + name, "c14", [v], ops=ops, init=[b], depth=d, tags=["spelling", name, "dyndep"],
                           twin_variants=[tw]))
+    # S9 the manifest named on the command line (-f) spelled oddly, in a project whose manifest is regenerated
+    def regen(name, ver):
+        return Variant(name, [Stmt("build.ninja", ex=["build.ninja.in"], generator=True, copy=True),
+                              Stmt("a", ex=["s"], ver=ver), Stmt("b", ex=["a"])], defaults=["b"])
+    va, vb = regen("m0", 0), regen("m1", 1)
+    ops = [{"op": "write", "path": "build.ninja.in", "content": vb.manifest(), "label": "build.ninja.in:=m1"},
+           {"op": "write", "path": "build.ninja.in", "content": va.manifest(), "label": "build.ninja.in:=m0"},
+           {"op": "edit", "path": "s", "label": "edit s"}]
+    b = len(ops)
+    ops.append(ninja_op(j=1))
+    for name, sp in sorted(SPELLINGS.items()):
+        if name not in ("dot", "slashes", "inner"):
+            continue    # the operating system opens this path: only spellings it resolves to the same file whatever exists
+        op = ninja_op(j=2, flags=["-f", sp("build.ninja")], label="ninja -j2 -f " + sp("build.ninja"))
+        op["canonical_args"] = ["-j2", "-k1", "-f", "build.ninja"]
+        ops.append(op)
+    T.append(scenario("c14/manifest_named_with_f", "c14", [va, vb], files={"build.ninja.in": va.manifest(), "s": "s-v0\n"}, ops=ops,
+                      init=[b], depth=d, tags=["spelling", "manifest-regen", "generator"]))
     return T
